@@ -344,3 +344,9 @@ pub fn nan32() -> f32 {
 pub trait AnyNan { fn any_nan() -> Self; }
 impl AnyNan for f64 { fn any_nan() -> Self { nan64() } }
 impl AnyNan for f32 { fn any_nan() -> Self { nan32() } }
+
+/// 2^e exactly for every e for which it is representable (subnormals included); `powi` with a negative exponent goes
+/// through 1 / 2^|e| and flushes to zero once 2^|e| overflows.
+pub fn pow2(e: i32) -> f64 {
+    if e > 1023 { f64::INFINITY } else if e >= -1022 { f64::from_bits(((e + 1023) as u64) << 52) } else if e >= -1074 { f64::from_bits(1u64 << (e + 1074)) } else { 0.0 }
+}
